@@ -52,6 +52,36 @@ fn main() {
                 o.flush().unwrap();
             }
         }
+        Some("cldr") => {
+            // oracle for "what CLDR assigns": {"locale","rule","n"} per line -> category (icu_plurals directly)
+            use icu_plurals::{PluralRuleType, PluralRules};
+            let stdin = std::io::stdin();
+            let stdout = std::io::stdout();
+            for line in stdin.lock().lines() {
+                let line = match line { Ok(l) => l, Err(_) => break };
+                let q: serde_json::Value = match serde_json::from_str(&line) { Ok(q) => q, Err(_) => continue };
+                let loc: icu_locid::Locale = match q["locale"].as_str().unwrap_or("").parse() {
+                    Ok(l) => l,
+                    Err(e) => { println!("{}", serde_json::json!({"err": e.to_string()})); continue; }
+                };
+                let rt = if q["rule"].as_str() == Some("ordinal") { PluralRuleType::Ordinal } else { PluralRuleType::Cardinal };
+                let rules = match PluralRules::try_new(&loc.into(), rt) {
+                    Ok(r) => r,
+                    Err(e) => { println!("{}", serde_json::json!({"err": e.to_string()})); continue; }
+                };
+                let cats: Vec<String> = rules.categories().map(|c| format!("{:?}", c).to_lowercase()).collect();
+                let cat = if let Some(n) = q["n"].as_u64() {
+                    Some(rules.category_for(n))
+                } else if let Some(n) = q["n"].as_i64() {
+                    Some(rules.category_for(n))
+                } else if let Some(n) = q["n"].as_f64() {
+                    fixed_decimal::FixedDecimal::try_from_f64(n, fixed_decimal::FloatPrecision::Floating).ok().map(|d| rules.category_for(&d))
+                } else { None };
+                let mut o = stdout.lock();
+                writeln!(o, "{}", serde_json::json!({"category": cat.map(|c| format!("{:?}", c).to_lowercase()), "categories": cats})).unwrap();
+                o.flush().unwrap();
+            }
+        }
         _ => {
             eprintln!("usage: verif-host gen|eval <project dir> | batch < dirs");
             std::process::exit(2);
